@@ -5,20 +5,25 @@
 (* whose atoms are <<"r", i, "">> (the node returned by call i of the same  *)
 (* history), <<"l", 0, name>> (a fluent object) or <<"v", 0, token>> (a     *)
 (* numeric literal).  The specification's own Apply is threaded through the *)
-(* history so that only results of accepted calls are referenced.           *)
+(* history so that only results of accepted calls are referenced and the    *)
+(* unspecified zone (Specified) is avoided.                                 *)
 (*                                                                          *)
-(* Mode "seq":     every history of exactly L calls over the alphabet given *)
-(*                 by Ctors / Leaves / Lits / MaxArity; with Direct = TRUE  *)
-(*                 fluents and literals may be passed directly to every     *)
-(*                 operator, otherwise they enter through FluentExp(f) and  *)
-(*                 Plus(v) / Times(v).                                      *)
-(* Mode "respell": for every single call c over the alphabet with direct    *)
+(* The plans to enumerate are read from IOEnv.PLANS (one JSON record each): *)
+(*   name, mode, L, ctors, leaves, lits, maxar, direct                      *)
+(* mode "seq":     every history of exactly L calls over the alphabet; with *)
+(*                 direct = TRUE fluents and literals may be passed         *)
+(*                 directly to every operator, otherwise they enter through *)
+(*                 FluentExp(f) and Plus(v) / Times(v).                     *)
+(* mode "respell": for every single call c over the alphabet with direct    *)
 (*                 arguments: <<c, c>> followed by one re-spelling of c     *)
-(*                 (equal-valued literal, mirrored comparison, unary        *)
-(*                 And/Or/Plus/Times wrapper, double negation) -- every     *)
-(*                 construction and every ill-typed attempt happens twice.  *)
+(*                 (any other literal in one position, mirrored comparison  *)
+(*                 or swapped operands, unary And/Or/Plus/Times wrapper,    *)
+(*                 double negation) -- every construction and every         *)
+(*                 ill-typed attempt happens twice.                         *)
 EXTENDS ExprManager, Json, IOUtils, SequencesExt
-CONSTANTS L, Mode, Direct
+
+Plans == ndJsonDeserialize(IOEnv.PLANS)
+SetOf(s) == {s[i] : i \in DOMAIN s}
 
 E0 == [h |-> <<>>, T |-> (TrueC :> 1) @@ (FalseC :> 2), n |-> 3, res |-> <<>>]
 
@@ -29,48 +34,54 @@ Step(e, k, as) ==
    IN [h |-> Append(e.h, [k |-> k, a |-> as]), T |-> r.T, n |-> r.n, res |-> Append(e.res, IF r.ok THEN r.res ELSE 0)]
 
 Refs(e) == {<<"r", i, "">> : i \in {j \in DOMAIN e.res : e.res[j] # 0}}
-CallsAt(e, direct) ==
-   LET R == Refs(e)
-       D == IF direct THEN LeafAtoms \cup LitAtoms ELSE {}
-       U(k) == R \cup D \cup (IF k \in {"Plus", "Times"} THEN LitAtoms ELSE {})
+\* the calls of plan p available after history e
+CallsAt(e, p, direct) ==
+   LET C == SetOf(p.ctors)
+       LA == {<<"l", 0, f>> : f \in SetOf(p.leaves)}
+       VA == {<<"v", 0, v>> : v \in SetOf(p.lits)}
+       R == Refs(e)
+       D == IF direct THEN LA \cup VA ELSE {}
+       U(k) == R \cup D \cup (IF k \in {"Plus", "Times"} THEN VA ELSE {})
        Sp(c) == Specified(c[1], [i \in DOMAIN c[2] |-> Res(e, c[2][i])], e.T)
    IN {c \in
-      {<<k, <<>>>> : k \in Ctors \cap (NaryC \cup {"TRUE", "FALSE"})}
-      \cup {<<"FluentExp", <<a>>>> : a \in (IF "FluentExp" \in Ctors THEN LeafAtoms ELSE {})}
-      \cup UNION {{<<k, <<a>>>> : a \in U(k)} : k \in Ctors \cap (NaryC \cup {"Not"})}
-      \cup {<<k, <<a, b>>>> : k \in Ctors \cap (NaryC \cup BinC), a \in R \cup D, b \in R \cup D}
-      \cup {<<k, <<a, b, c>>>> : k \in (IF MaxArity >= 3 THEN Ctors \cap NaryC ELSE {}),
+      {<<k, <<>>>> : k \in C \cap (NaryC \cup {"TRUE", "FALSE"})}
+      \cup {<<"FluentExp", <<a>>>> : a \in (IF "FluentExp" \in C THEN LA ELSE {})}
+      \cup UNION {{<<k, <<a>>>> : a \in U(k)} : k \in C \cap (NaryC \cup {"Not"})}
+      \cup {<<k, <<a, b>>>> : k \in C \cap (NaryC \cup BinC), a \in R \cup D, b \in R \cup D}
+      \cup {<<k, <<a, b, c>>>> : k \in (IF p.maxar >= 3 THEN C \cap NaryC ELSE {}),
                                  a \in R \cup D, b \in R \cup D, c \in R \cup D}
       : Sp(c)}
-Ext(e, direct) == {Step(e, c[1], c[2]) : c \in CallsAt(e, direct)}
+Ext(e, p) == {Step(e, c[1], c[2]) : c \in CallsAt(e, p, p.direct)}
 
-RECURSIVE Hist(_)
-Hist(k) == IF k = 0 THEN {E0} ELSE UNION {Ext(e, Direct) : e \in Hist(k - 1)}
+RECURSIVE Hist(_, _)
+Hist(k, p) == IF k = 0 THEN {E0} ELSE UNION {Ext(e, p) : e \in Hist(k - 1, p)}
 
 \* ---- re-spellings of a first call c (its result, when accepted, is <<"r", 1, "">>)
 \* one literal argument replaced by any literal of the alphabet (equal-valued: same node expected;
 \* different value: a distinct node expected)
-ReLit(c) == {<<c[1], [c[2] EXCEPT ![p] = w]>> : p \in {q \in DOMAIN c[2] : c[2][q][1] = "v"}, w \in LitAtoms}
+ReLit(c, p) == {<<c[1], [c[2] EXCEPT ![q] = <<"v", 0, w>>]>> :
+                  q \in {j \in DOMAIN c[2] : c[2][j][1] = "v"}, w \in SetOf(p.lits)}
 Mirror(c) == CASE c[1] = "GE" -> {<<"LE", <<c[2][2], c[2][1]>>>>}
                [] c[1] = "LE" -> {<<"GE", <<c[2][2], c[2][1]>>>>}
                [] c[1] = "GT" -> {<<"LT", <<c[2][2], c[2][1]>>>>}
                [] c[1] = "LT" -> {<<"GT", <<c[2][2], c[2][1]>>>>}
-               [] c[1] \in BinC \ {"GE", "LE", "GT", "LT"} -> {<<c[1], <<c[2][2], c[2][1]>>>>}
+               [] c[1] \in (NaryC \cup BinC) \ {"GE", "LE", "GT", "LT"} /\ Len(c[2]) = 2 -> {<<c[1], <<c[2][2], c[2][1]>>>>}
                [] OTHER -> {}
-Wrap == {<<k, <<<<"r", 1, "">>>>>> : k \in Ctors \cap (NaryC \cup {"Not"})}
-Respell ==
-   LET firsts == CallsAt(E0, TRUE)
+Wrap(p) == {<<k, <<<<"r", 1, "">>>>>> : k \in SetOf(p.ctors) \cap (NaryC \cup {"Not"})}
+Respell(p) ==
+   LET firsts == CallsAt(E0, p, TRUE)
        two(c) == Step(Step(E0, c[1], c[2]), c[1], c[2])
-       third(c) == ReLit(c) \cup Mirror(c) \cup (IF two(c).res[1] # 0 THEN Wrap ELSE {}) \cup {c}
+       third(c) == ReLit(c, p) \cup Mirror(c) \cup (IF two(c).res[1] # 0 THEN Wrap(p) ELSE {}) \cup {c}
        three(c) == {Step(two(c), d[1], d[2]) : d \in third(c)}
        \* a fourth call only after a Not wrapper: Not(Not(c))
        four(e) == IF e.h[3].k = "Not" /\ e.h[3].a = <<<<"r", 1, "">>>> /\ e.res[3] # 0
                   THEN Step(e, "Not", <<<<"r", 3, "">>>>) ELSE e
    IN UNION {{four(e) : e \in three(c)} : c \in firsts}
 
-Histories == IF Mode = "seq" THEN Hist(L) ELSE Respell
-ASSUME ndJsonSerialize(IOEnv.OUT, SetToSeq({[ops |-> e.h] : e \in Histories}))
-ASSUME PrintT(<<"EMITTED", Cardinality({e.h : e \in Histories})>>)
+HistoriesOf(p) == {e.h : e \in (IF p.mode = "seq" THEN Hist(p.L, p) ELSE Respell(p))}
+All == UNION {{[plan |-> Plans[i].name, ops |-> h] : h \in HistoriesOf(Plans[i])} : i \in DOMAIN Plans}
+ASSUME ndJsonSerialize(IOEnv.OUT, SetToSeq(All))
+ASSUME PrintT(<<"EMITTED", Cardinality(All)>>)
 VARIABLE dummy
 EInit == dummy = 0 /\ Init
 ENext == UNCHANGED <<dummy, vars>>
